@@ -249,10 +249,22 @@ where
         let s = g.f64_in(300.0, 800.0);
         target.a = (0..d * d).map(|i| if i % (d + 1) == 0 { 1.0 / (s * s * (1.0 + (i as f64) * 0.3)) } else { 0.0 }).collect();
     }
+    // a target with bounded support / a NaN region: leaves of -inf or NaN energy are outside the
+    // slice AND end the doubling (both comparisons of Algorithm 6 are false for NaN)
+    let support = params.get("support").and_then(|w| w.as_bool()).unwrap_or(false);
+    let mut support_init = None;
+    if support {
+        target = crate::props::c14::gen_support_target(&mut g);
+        support_init = Some(crate::props::c14::support_start(&mut g, &target));
+        o.count("probe_bounded_support_runs", 1);
+    }
     target.eval_budget = 60_000;
     let d = target.d;
     let scale0 = if wide { 50.0 } else { pf(params, "start_scale") };
-    let init: Vec<T> = (0..d).map(|_| T::from(g.normal() * scale0).unwrap()).collect();
+    let init: Vec<T> = match &support_init {
+        Some(s) => s.iter().map(|x| T::from(*x).unwrap()).collect(),
+        None => (0..d).map(|_| T::from(g.normal() * scale0).unwrap()).collect(),
+    };
     let acc = T::from(pf(params, "accept")).unwrap();
     let (ncol, ndis) = (pus(params, "n_collect"), pus(params, "n_discard"));
     let mut chain = NUTSChain::<T, B, GTarget>::new(target.clone(), init, acc).set_seed(pu(params, "seed"));
@@ -280,7 +292,11 @@ where
                 return o;
             }
         }
-        let newpos: Vec<f64> = (0..d).map(|_| ((g.normal() * scale0 * 2.0) as f32) as f64).collect();
+        let newpos: Vec<f64> = if support {
+            crate::props::c14::support_start(&mut g, &target).iter().map(|v| (*v as f32) as f64).collect()
+        } else {
+            (0..d).map(|_| ((g.normal() * scale0 * 2.0) as f32) as f64).collect()
+        };
         chain.position = Tensor::<B, 1>::from_data(TensorData::new(newpos, [d]), &chain.position.device());
         o.count("probe_position_reassigned_between_runs", 1);
     }
@@ -345,7 +361,7 @@ impl Scenario for NutsTransitions {
         if g.bool(1, 40) {
             return json!({"float": "f64", "wide": true, "gseed": g.u64(), "seed": g.u64(), "n_collect": 3, "n_discard": 0, "accept": fbits(0.8), "start_scale": fbits(1.0)});
         }
-        json!({"float": *g.pick(&["f64", "f64", "f64", "f32"]), "gseed": g.u64(), "seed": g.u64(), "n_collect": g.usize(1, 6), "n_discard": g.usize(0, 14), "accept": fbits(g.f64_in(0.55, 0.97)), "start_scale": fbits(g.log_uniform(0.1, 4.0)), "reposition": g.bool(1, 4)})
+        json!({"float": *g.pick(&["f64", "f64", "f64", "f32"]), "gseed": g.u64(), "seed": g.u64(), "n_collect": g.usize(1, 6), "n_discard": g.usize(0, 14), "accept": fbits(g.f64_in(0.55, 0.97)), "start_scale": fbits(g.log_uniform(0.1, 4.0)), "reposition": g.bool(1, 4), "support": g.bool(1, 6)})
     }
     fn execute(&self, p: &Value, ws: bool) -> Outcome {
         if ps(p, "float") == "f32" {
